@@ -49,6 +49,8 @@ pub enum Ctx6 {
     AltBranch,
     InCommand,
     InAdjacent,
+    /// inside an `.adjacent()` sub-command
+    InAdjCommand,
 }
 #[derive(Clone, Debug, Serialize, Deserialize)]
 pub struct Def {
@@ -158,7 +160,7 @@ pub fn to_opts(d: &Def) -> Opts {
     }
     let is_pos = d.prim == Prim::Pos;
     let field = match d.ctx {
-        Ctx6::Top | Ctx6::InCommand => item,
+        Ctx6::Top | Ctx6::InCommand | Ctx6::InAdjCommand => item,
         Ctx6::AltBranch => P::Alt(vec![P::Map(item.bx(), "it".into()), P::Map(P::ReqFlag(Names::both('z', "zed")).bx(), "z".into())]),
         Ctx6::InAdjacent => P::Adj(vec![P::ReqFlag(Names::both('g', "grp")), item]).opt(),
     };
@@ -169,6 +171,7 @@ pub fn to_opts(d: &Def) -> Opts {
     level.cfg.fallback_to_usage = d.usage;
     match d.ctx {
         Ctx6::InCommand => Opts::new(P::Seq(vec![P::Switch(Names::both('o', "outer")), P::cmd("cmd", level)])),
+        Ctx6::InAdjCommand => Opts::new(P::Seq(vec![P::Switch(Names::both('o', "outer")), P::Cmd { name: "cmd".into(), shorts: vec![], longs: vec![], inner: Box::new(level), adjacent: true, help: None }])),
         _ => level,
     }
 }
@@ -228,7 +231,7 @@ pub fn alphabet_for(d: &Def) -> Vec<Tok> {
     }
     match d.ctx {
         Ctx6::AltBranch => a.push(Tok::s("-z")),
-        Ctx6::InCommand => {
+        Ctx6::InCommand | Ctx6::InAdjCommand => {
             a.push(Tok::s("cmd"));
             a.push(Tok::s("-o"));
         }
@@ -402,7 +405,7 @@ fn check_accepted(d: &Def, unit: &Value, p: &bpaf::OptionParser<Val>, argv: &[To
     // with fallback_to_usage a level that got no items at all answers with its usage
     let level_empty = d.usage
         && (v3.is_empty()
-            || (d.ctx == Ctx6::InCommand
+            || (matches!(d.ctx, Ctx6::InCommand | Ctx6::InAdjCommand)
                 && v3.iter().position(|t| t.0 == b"cmd").map_or(false, |c| v3[c + 1..].iter().all(|t| t.0 == b"-o" || t.0 == b"--outer"))));
     let ok = match (&r, expect_value || group_absent) {
         (Outcome::Value(_), true) => true,
@@ -429,7 +432,7 @@ fn env_clause(d: &Def, unit: &Value, p: &bpaf::OptionParser<Val>, ctx: &mut Ctx)
         std::env::remove_var(ENVV);
         std::env::remove_var(ENVV2);
         std::env::set_var(var, Tok(val.to_vec()).os());
-        let argv: Vec<Tok> = if d.ctx == Ctx6::InCommand { toks(&["cmd"]) } else if d.ctx == Ctx6::InAdjacent { toks(&["--grp"]) } else { vec![] };
+        let argv: Vec<Tok> = if matches!(d.ctx, Ctx6::InCommand | Ctx6::InAdjCommand) { toks(&["cmd"]) } else if d.ctx == Ctx6::InAdjacent { toks(&["--grp"]) } else { vec![] };
         ctx.s.evaluations += 1;
         let r = run(p, &argv);
         std::env::remove_var(ENVV);
@@ -618,7 +621,7 @@ impl Check for C06 {
         let st = stacks(3);
         for prim in [Prim::ArgFromStr, Prim::ArgParse, Prim::ArgGuard, Prim::Pos, Prim::EnvArg] {
             for s in &st {
-                for c in [Ctx6::Top, Ctx6::AltBranch, Ctx6::InCommand, Ctx6::InAdjacent] {
+                for c in [Ctx6::Top, Ctx6::AltBranch, Ctx6::InCommand, Ctx6::InAdjacent, Ctx6::InAdjCommand] {
                     if prim == Prim::Pos && c == Ctx6::AltBranch {
                         continue; // a positional beside a named alternative: order rule
                     }
@@ -697,7 +700,7 @@ impl Check for C06 {
         }
     }
     fn rule(&self) -> String {
-        "definitions = typed u32 primitive {argument via FromStr, argument via .parse(f), guarded argument, positional, env-backed argument} under EVERY type-correct wrapper stack of depth <= 3 from {guard, hide, fallback, fallback_with ok/err, last, optional, many, some, collect (with and without catch), guard on the list, fallback on the list} in 4 contexts {top-level field, branch of an alternative, inside a sub-command, member of an adjacent group} beside 0..2 neutral items, the bare levels also with fallback_to_usage (a present invalid value still fails with its own message); accepted vectors are discovered on the whole token tree; for each, every typed value occurrence is replaced by each of {x, empty, -1 attached, 99999999999, \\xff, guard-violating 11} -> must be an stderr failure whose text carries the FromStr / parse / guard message (text not demanded inside an alternative, nothing demanded under catch); the item removed -> a value iff the stack defaults when absent, else an stderr failure; env-backed: invalid (unparsable, empty, non-UTF-8) variable with the item absent from the line fails the same way; plus a guard attached to a GROUP of two arguments (plain and adjacent), the group bare / optional / many / some, judged on every vector of length <= 5-6 by a pairing model (k-th --min with k-th --max; a present pair violating the guard must fail with the guard's message, whichever repetition it is); evaluation = one run; non-trivial = accepted vector containing a typed value".into()
+        "definitions = typed u32 primitive {argument via FromStr, argument via .parse(f), guarded argument, positional, env-backed argument} under EVERY type-correct wrapper stack of depth <= 3 from {guard, hide, fallback, fallback_with ok/err, last, optional, many, some, collect (with and without catch), guard on the list, fallback on the list} in 5 contexts {top-level field, branch of an alternative, inside a sub-command, member of an adjacent group, inside an adjacent sub-command} beside 0..2 neutral items, the bare levels also with fallback_to_usage (a present invalid value still fails with its own message); accepted vectors are discovered on the whole token tree; for each, every typed value occurrence is replaced by each of {x, empty, -1 attached, 99999999999, \\xff, guard-violating 11} -> must be an stderr failure whose text carries the FromStr / parse / guard message (text not demanded inside an alternative, nothing demanded under catch); the item removed -> a value iff the stack defaults when absent, else an stderr failure; env-backed: invalid (unparsable, empty, non-UTF-8) variable with the item absent from the line fails the same way; plus a guard attached to a GROUP of two arguments (plain and adjacent), the group bare / optional / many / some, judged on every vector of length <= 5-6 by a pairing model (k-th --min with k-th --max; a present pair violating the guard must fail with the guard's message, whichever repetition it is); evaluation = one run; non-trivial = accepted vector containing a typed value".into()
     }
     fn bounds(&self, tier: Tier) -> Value {
         json!({"stack_depth": 3, "base_vector_length": tier.pick(3, 4)})
